@@ -33,6 +33,14 @@ func (c *totalCtx) measure(parser, note string, input []byte, fn func() error) {
 	if c.timeouts > 8 {
 		return
 	}
+	if !announce(c.n) {
+		in := input
+		if len(in) > 4096 {
+			in = in[:4096]
+		}
+		emit(map[string]interface{}{"case": fmt.Sprintf("t%d", c.n), "parser": parser, "note": note, "n": len(input), "head": ints(in), "outcome": "crash", "alloc": int64(0)})
+		return
+	}
 	outcome := make(chan string, 1)
 	var alloc uint64
 	go func() {
